@@ -936,7 +936,10 @@ def sym_pow(a, b):
     if not is_sym(b):
         fr = Fraction(builtins.float(b)).limit_denominator(64)
         if abs(builtins.float(fr) - builtins.float(b)) < 1e-15 and fr.numerator in (1, -1) and 2 <= fr.denominator <= 8:
-            # p = a ** (+-1/n):  p ** n == a (resp. 1/a) for a > 0
+            # p = a ** (+-1/n):  p ** n == a (resp. 1/a) for a > 0.  Under A1 (floats are reals) the float 1/n stands for the real 1/n: the
+            # exponent TERM is the exact fraction, so that the axiom below is literally a theorem of real rpow (lean/Axioms.lean: pow_root_ax)
+            bz = z3.Q(fr.numerator, fr.denominator)
+            p = _F_POW(az, bz)
             pn = p
             for _ in range(fr.denominator - 1):
                 pn = pn * p
